@@ -20,6 +20,15 @@ DIMOBJ = {
     "c": Dimension(name="dim_c", letter="c", items=[2, 1]),
     "d": Dimension(name="dim_d", letter="d", items=["d1"], dtype=str),
 }
+# the same dimensions (names, letters, item SETS) with their items listed in another order: every third vector is
+# replayed a second time in this concretisation, in the same process (anything the library remembers about a
+# dimension from an earlier import / export must not leak into a later one)
+DIMSETS = [DIMOBJ, {
+    "a": Dimension(name="dim_a", letter="a", items=["a1", "a2", "a3"], dtype=str),
+    "b": Dimension(name="dim_b", letter="b", items=[2000, 2010], dtype=int),
+    "c": Dimension(name="dim_c", letter="c", items=[1, 2]),
+    "d": Dimension(name="dim_d", letter="d", items=["d1"], dtype=str),
+}]
 CANON = ["a", "b", "c", "d"]
 UNKNOWN = {"a": "zz", "b": 1999, "c": 99, "d": "zz"}
 
@@ -222,6 +231,8 @@ def run_export(vec):
         vals = base.copy()
         if sparse:
             vals[(vals * 4).astype(int) % 3 == 0] = 0.0     # a deterministic pattern of zeros
+            if vec["styleid"] % 2 == 1 and vals.ndim >= 1 and vals.shape[0] > 1:
+                vals[0, ...] = 0.0                            # an item whose whole slice is zero does not occur in the sparse frame at all
             nz = np.argwhere(vals != 0)
             if len(nz) >= 2:                                  # non-zero entries of very small magnitude stay entries
                 vals[tuple(nz[0])] = 1e-12
@@ -267,6 +278,12 @@ def run_export(vec):
                 df2 = df2.iloc[order]
             if st["colperm"] == "rev":
                 df2 = df2[list(df2.columns)[::-1]]
+            if st["hdr"] == "letter":
+                # the exported frame with its dimensions identified by LETTER instead of by name
+                ren = {DIMOBJ[l].name: l for l in ds}
+                df2 = df2.rename(columns=ren)
+                if any(n is not None for n in df2.index.names):
+                    df2.index = df2.index.set_names([ren.get(n, n) for n in df2.index.names])
             if st["csv"]:
                 buf = io.StringIO()
                 df2.to_csv(buf, index=any(n is not None for n in df2.index.names))
@@ -282,7 +299,16 @@ def run_export(vec):
 
 
 def run_vector(vec):
-    return run_import(vec) if vec["op"] == "import" else run_export(vec)
+    global DIMOBJ
+    fn = run_import if vec["op"] == "import" else run_export
+    problems = fn(vec)
+    if not problems and (len(vec.get("rows", [])) + len(vec["ds"]) + vec.get("styleid", 0)) % 3 == 0:
+        DIMOBJ = DIMSETS[1]
+        try:
+            problems = ["[items of every dimension listed in another order] " + p for p in fn(vec)]
+        finally:
+            DIMOBJ = DIMSETS[0]
+    return problems
 
 
 def run_large_roundtrip(case):
